@@ -19,6 +19,7 @@ RULE = ('E1 (Hypothesis). Exact part: elements of all 7 kinds are generated in *
         'ndarray / int list / mixed list accepted alike and left unmodified; degenerate extents succeed and equal the widened '
         'extent; GeoSeries.hilbert_distance == array method on the same index. p in 1..31. Non-trivial: a centre on a cell '
         'border / upper edge / outside the grid, a degenerate extent, or a non-list total_bounds. distinct = distinct cases.')
+RULE += (' Added after the seeded rounds: containers derived (take with fill, iloc, mask, head, reindex) from a parent whose bounds / total bounds / distances were already computed equal fresh containers, also for the default total_bounds.')
 ASSUMPTIONS = ['C07 (the curve itself) is checked separately; here the reference curve is the n=2 construction of oracle_hilbert',
                'distance of a missing/empty element is only required to be in range']
 BUDGET = {'quick': {'shards': 16, 'examples': 4800, 'min_evaluations': 2000},
